@@ -47,5 +47,12 @@ Spec == Init /\ [][Next]_vars
 ResultIsDeduce == \A g \in 1..G : (pc[g] = "idle" /\ ret[g] # NONE) => ret[g] = Class[cur[g]]
 CacheStable    == \A t \in Types : Cardinality(seen[t]) <= 1 /\ (cache[t] # NONE => cache[t] = Class[t])
 
+\* Liveness (no lock, no wait in the protocol): under weak fairness of each goroutine's own steps every started classification returns,
+\* and from then on the type is answered from the cache (CachedForGood).  Checked by TLC with the fair specification (MCDispatch_live.cfg).
+Step(g) == Load(g) \/ PreStore(g) \/ Deduce(g) \/ Store(g)
+FairSpec == Spec /\ \A g \in 1..G : WF_vars(Step(g))
+EveryCallReturns == \A g \in 1..G : (pc[g] # "idle") ~> (pc[g] = "idle" /\ ret[g] = Class[cur[g]])
+CachedForGood    == \A t \in Types : [](cache[t] # NONE => [](cache[t] = Class[t]))
+
 \* (b) the decision table lives in DispatchTable.tla (no variables), shared with TraceDispatch.
 =============================================================================
